@@ -3,7 +3,7 @@
    of the driver runs); [original] is the code as it was, for which the two
    liveness clauses are refuted below. *)
 From Coq Require Import List NArith Bool Arith Ascii.
-From Martian.C04 Require Import Model Proofs Proofs_After Proofs_Audit.
+From Martian.C04 Require Import Gen_Ret Model Proofs Proofs_After Proofs_Audit.
 Import ListNotations.
 Open Scope char_scope.
 
@@ -160,11 +160,30 @@ Print Assumptions C04_model_meets_spec.
    four source facts come from proxy.go through harness/cmd/gen_c04; if the
    return value stops being errClose this theorem no longer checks. *)
 Theorem C04_after_join_connection_released :
-  after_tunnel_here = mkAfter true false /\
-  forall a b c d, after_tunnel a b c d = mkAfter true false
-                  <-> a = true /\ b = true /\ c = true /\ d = true.
+  after_tunnel_here = mkAfter true false true /\
+  forall a b c d e, after_tunnel a b c d e = mkAfter true false true
+                  <-> a = true /\ b = true /\ c = true /\ d = true /\ e = true.
 Proof. exact (conj after_tunnel_released after_tunnel_iff). Qed.
 Print Assumptions C04_after_join_connection_released.
+
+(* Release of the TARGET connection as an observation: a dialer that records
+   Close() must have seen it once the tunnel is over; with the source facts as
+   they are the model says so too. *)
+Theorem C04_target_release_oracle :
+  (forall k, target_release_ok k = true <-> k <> Some false) /\
+  (forall k, target_release_agrees after_tunnel_here k = target_release_ok k).
+Proof. exact (conj target_release_ok_iff target_release_agrees_here). Qed.
+Print Assumptions C04_target_release_oracle.
+
+(* Nothing carried over from a previous exchange on the same client connection
+   shapes the tunnel: handle() replaces the traffic shaping context before it
+   dispatches the CONNECT (fact read from the source); without that statement a
+   stale action offset would apply. *)
+Theorem C04_no_stale_shaping_in_tunnel :
+  (forall stale, tunnel_cut shaping_reset_before_connect stale = None) /\
+  (forall off, tunnel_cut false (Some off) = Some off).
+Proof. exact (conj no_stale_shaping stale_shaping_without_reset). Qed.
+Print Assumptions C04_no_stale_shaping_in_tunnel.
 
 (* the probe's oracle: a write into the dead tunnel eventually fails and the
    canary origin is never contacted *)
